@@ -1,6 +1,8 @@
 """Common scaffolding for the properties decided on whole simulated runs of generated models."""
 
-from av import gen, ref, simcase
+from av import corpus, gen, ref, simcase
+
+CORPUS_EVERY = 8  # every 8th case is a library / fixture model under perturbation (av/corpus.py)
 
 SIZES = {"quick": 640, "thorough": 24000}
 
@@ -8,12 +10,18 @@ SIZES = {"quick": 640, "thorough": 24000}
 def make_case_for(prop_number, profile=None):
     def make_case(tier, seed, index):
         rng = gen.rng_for(seed, prop_number, index)
+        if index % CORPUS_EVERY == CORPUS_EVERY - 1:
+            return corpus.make_case(rng, max_steps=40 if tier == "quick" else 80)
         pf = dict(profile or {})
         if tier == "thorough":
             pf.setdefault("steps", (3, 60))
         return {"kind": "generated", "spec": gen.gen_spec(rng, pf)}
 
     return make_case
+
+
+def sample_of_case(case):
+    return corpus.describe(case) if case.get("kind") == "corpus" else sample_of(case["spec"])
 
 
 def sample_of(spec):
